@@ -342,6 +342,10 @@ def spec_compare(c, g, m, sens=None):
                 continue
             r = vals_close(a, s[sj], scale)
             if r is None:
+                fv = h2f(s[sj])
+                if fv == fv and abs(fv) != math.inf:
+                    # the exemption is for positions where the documented formula is undefined; here it has a value and the code has none
+                    return ({'output': k, 'position': pos, 'go': repr(h2f(a)), 'formula': fv, 'kind': 'nonfinite-where-defined'}, compared, exempt)
                 exempt += 1
                 continue
             compared += 1
@@ -483,7 +487,7 @@ def check_c01(res, tier, replay):
                                         'formula evaluated in binary64 by the Lean driver; comparison tolerance 1e-9 relative + 1e-10 of the input scale; non-finite positions exempt'],
     })
     res.assumptions = ['floating-point rounding is not modelled by the theorems (stated over the reals); it is bounded by the tolerance comparison',
-                       'positions where Go or the formula is non-finite (zero denominator) are exempt, as the property allows']
+                       'positions where the documented formula is non-finite (zero denominator) are exempt, as the property allows; a non-finite Go value where the formula is defined is a deviation']
     return res.finish()
 
 
